@@ -508,12 +508,56 @@ func (v *c13V) Validate() error {
 	return nil
 }
 
+// c13TagSeq: one struct type read under two struct tag names. Under `config` the settings are
+// a, b (c ignored); under `alt` they are x, y (a ignored).
+type c13Alt1 struct {
+	A int    `config:"a" alt:",ignore"`
+	B string `config:"b" alt:"y"`
+	C int    `config:",ignore" alt:"x"`
+}
+type c13Alt2 struct {
+	A int    `config:"a" alt:",ignore"`
+	B string `config:"b" alt:"y"`
+	C int    `config:",ignore" alt:"x"`
+}
+
 func c13Extra() *core.Space {
 	type tcase struct {
 		Name string
 		Run  func() string // "" = ok
 	}
+	tagSeq := func(first string, mk func() (interface{}, func() string)) string {
+		cfg := mustCfg(M{"a": 1, "b": "fromb", "x": 7, "y": "fromy"})
+		order := []string{first, map[string]string{"alt": "config", "config": "alt"}[first], first}
+		for step, tag := range order {
+			t, show := mk()
+			var opts []ucfg.Option
+			if tag == "alt" {
+				opts = append(opts, ucfg.StructTag("alt"))
+			}
+			if err := cfg.Unpack(t, opts...); err != nil {
+				return err.Error()
+			}
+			want := map[string]string{"config": "{A:1 B:fromb C:55}", "alt": "{A:44 B:fromy C:7}"}[tag]
+			if got := show(); got != want {
+				return fmt.Sprintf("call %d with struct tag %q: got %s, want %s (pre-filled A:44 B:old C:55)", step+1, tag, got, want)
+			}
+		}
+		return ""
+	}
 	cases := []tcase{
+		{"the StructTag option selects names and ignore flags anew on every call (alt, config, alt)", func() string {
+			return tagSeq("alt", func() (interface{}, func() string) {
+				t := &c13Alt1{A: 44, B: "old", C: 55}
+				return t, func() string { return fmt.Sprintf("%+v", *t) }
+			})
+		}},
+		{"the StructTag option selects names and ignore flags anew on every call (config, alt, config)", func() string {
+			return tagSeq("config", func() (interface{}, func() string) {
+				t := &c13Alt2{A: 44, B: "old", C: 55}
+				return t, func() string { return fmt.Sprintf("%+v", *t) }
+			})
+		}},
 		{"InitDefaults sets unmentioned fields, config overrides mentioned ones", func() string {
 			t := &c13D{A: 1}
 			if err := mustCfg(M{"a": 2}).Unpack(t); err != nil {
